@@ -382,7 +382,10 @@ class MatrixProduct:
             new_mps.to_complex(inplace=True)
         new_mps.compress_config.update(self.compress_config)
 
-        if self.is_mps:  # MPS
+        if self.site_num == 1:
+            # both bonds of the single tensor are boundary bonds of dimension 1: plain sum
+            new_mps[0] = self[0].array + other[0].array
+        elif self.is_mps:  # MPS
             new_mps[0] = dstack([self[0], other[0]])
             for i in range(1, self.site_num - 1):
                 mta = self[i]
